@@ -26,8 +26,11 @@ PID = "C07"
 KS_BASE = [1, 2, 7]
 K_LONG, K_HUGE = 1000, 12000
 
-SIG_PAUSE = "C07 pair-diverges [rapid-event pause still pending at the may-block decision"
-SIG_ZIPPY = "C07 pair-diverges [zippychord forced state reset after 10000 idle ticks"
+# signatures of the recorded findings (known_findings.json); each is attached to a rejected pair only after a
+# counterfactual run showed that the pair agrees once the named condition is out of the way
+SIG_PAUSE = "C07 [rapid-event pause still pending at the may-block decision"
+SIG_OS0 = "C07 [one-shot end pending (oneshot.timeout = 0, keys non-empty) counted as idle"
+SIG_ZIPPY = "C07 [zippychord forced state reset after 10000 idle ticks"
 
 
 # ---------------------------------------------------------------- instance family (L1)
@@ -63,8 +66,8 @@ def family(tier):
     # historical_keys ages vs switch_max_key_timing
     add("switch", L("ab", ["(switch ((key-timing 1 lt 4)) x break () y break)", "z"]), "ab", 4, caps={"hist": 1})
     # action queue (chords v1 decomposition) + chord waiting
-    add("chord", L("abc", ["(chord g a)", "(chord g b)", "(chord g c)"],
-                   "(defchords g 2 (a) x (b) y (c) z (a b c) 1)\n"), "abc", 2)
+    # (a b) is not a chord of the group: pressing both is decomposed into a, b through the action queue
+    add("chord", L("abc", ["(chord g a)", "(chord g b)", "z"], "(defchords g 2 (a) x (b) y)\n"), "abc", 2)
     # macro_on_press_cancel_duration
     add("mcancel", L("ab", ["(macro-cancel-on-press x 2 y)", "z"]), "ab", 6)
     # live_reload_requested (stays requested in the stepper: never blocks again)
@@ -81,10 +84,11 @@ def family(tier):
     return F
 
 
-# the model-level probe that is NOT explained by the known rapid-event pause (oneshot.pause_input_processing_ticks):
-# a non-stutter tick in a may-block state whose pause counter is 0
+# model-level probes (soft invariants: print the shortest history reaching the state and go on).  The judgement
+# IdleTickIsStutter is defined in spec/Kanata.tla; NOSTUTTERX = not covered by a recorded finding.
 PROBE_DEFS = r'''
-C07ProbeX == TickIsStutter \/ K.L.os.pticks > 0 \/ PrintT(<<"NOSTUTTERX", ToJson([h |-> hist])>>)
+C07Probe == IdleTickIsStutter(K) \/ PrintT(<<"NOSTUTTER", ToJson([h |-> hist])>>)
+C07ProbeX == IdleTickIsStutter(K) \/ IdleTickKnownDefect(K) \/ PrintT(<<"NOSTUTTERX", ToJson([h |-> hist])>>)
 '''
 
 # ---------------------------------------------------------------- hand-written configurations beyond L1
@@ -203,7 +207,7 @@ def validate_pairs(files, wd, name, timeout=3000):
                 elif r["e"] == "pair":
                     stats["pairs"] += 1
                     index[ln] = {"job": r["job"], "cut": r["cut"], "K": r["K"], "cont": r["cont"], "mode": r["mode"],
-                                 "osp": r.get("osp", 0)}
+                                 "pre": r["pre"], "guards": r.get("guards", {})}
         g.write('{"e":"end"}\n')
     mod = "C07PairTrace"
     with open(os.path.join(wd, mod + ".cfg"), "w") as f:
@@ -246,7 +250,7 @@ def pair_replay_obj(job, case, e, pair_line):
     """A self-contained replay description of one rejected pair."""
     atoms = expand_steps(case["hist"])
     prefix = compress_steps(atoms[:e["cut"]]) if e["mode"] == "gap" else case["hist"]
-    if e["mode"] == "block":
+    if e["mode"] != "gap":
         cont = []
     elif e["cont"] == "rest":
         k = e["cut"]
@@ -257,11 +261,11 @@ def pair_replay_obj(job, case, e, pair_line):
         cont = case["conts"][e["cont"]]
     return {"kind": "c07pair", "property": PID, "cfg": job["cfg"], "files": job.get("files", {}), "mode": e["mode"],
             "prefix": prefix, "K": e["K"], "cont": cont, "tail": case.get("tail", 0), "err": e["err"],
-            "osp": pair_line.get("osp", 0), "monitor": "P_C07"}
+            "pre": pair_line.get("pre", {}), "monitor": "P_C07"}
 
 
 def replay_case(r):
-    if r["mode"] == "block":
+    if r["mode"] in ("block", "blockg"):
         return {"hist": r["prefix"], "points": "none", "ks": [], "conts": [], "block": True}
     return {"hist": r["prefix"], "points": "end", "ks": [r["K"]], "conts": [r["cont"]], "tail": r["tail"]}
 
@@ -272,10 +276,15 @@ def replay(r, path, wd):
     files = run_paired([job], wd, "replay", shards=1)
     for line in open(files[0]):
         print(line.rstrip()[:1200])
-    stats, errs, notes, _ = validate_pairs(files, wd, "replay")
+    stats, errs, notes, index = validate_pairs(files, wd, "replay")
     if stats["pairs"] == 0:
         print("the prefix no longer ends in a may-block decision on this tree: nothing to compare")
         return 0
+    if any(e["mode"] == "blockg" for e in errs) or not any(p["mode"] == "blockg" for p in index.values()):
+        pass
+    else:
+        # the guarded blocking stepper agrees: what is left is attributed to the recorded findings
+        errs = [e for e in errs if e["mode"] != "block"]
     for e in errs:
         print("REJECTED: %s" % e["err"])
     if errs:
@@ -291,7 +300,7 @@ class Pairs:
     def __init__(self, res, wd):
         self.res, self.wd = res, wd
         self.jobs = []
-        self.stats = {"pairs": 0, "rejected": 0, "known_pause": 0, "known_zippy": 0, "raw_only_diffs": 0,
+        self.stats = {"pairs": 0, "rejected": 0, "known_pause": 0, "known_os0": 0, "known_zippy": 0, "raw_only_diffs": 0,
                       "points": 0, "cases": 0, "ticks_scanned": 0, "cb_ticks": 0}
 
     def add(self, cfg, files, cases, label, meta=None):
@@ -329,30 +338,46 @@ class Pairs:
         self.stats["rejected"] += len(errs)
         bad = {e["line"] for e in errs}
         sib_ok = {}          # (job, cut, cont) -> gap lengths K whose pair was accepted
+        okg = set()          # jobs whose guarded blocking-stepper pair was accepted
         for ln, p in index.items():
             if ln not in bad:
                 sib_ok.setdefault((p["job"], p["cut"], json.dumps(p["cont"])), set()).add(p["K"])
+                if p["mode"] == "blockg":
+                    okg.add(p["job"])
         retest = []
         for e in errs:
             job, case = self.lookup(e["job"])
             pl = index[e["line"]]
             robj = pair_replay_obj(job, case, e, pl)
             text = e["err"]
-            if e["mode"] == "gap" and e["err"].startswith("C07 pair-diverges"):
-                if "defzippy" in job["cfg"] and e["K"] > 10000 and \
+            pre = pl["pre"]
+            if e["mode"] == "gap":
+                if "defzippy" in job["cfg"] and e["K"] > 10000 and e["err"].startswith("C07 pair-diverges") and \
                         any(k <= K_LONG for k in sib_ok.get((e["job"], e["cut"], json.dumps(e["cont"])), ())):
                     text = SIG_ZIPPY + ": the pair with a gap of %d ticks diverges, the same pair with a gap <= %d agrees; " \
                         "configuration has defzippy] " % (e["K"], K_LONG) + e["err"]
-                elif pl["osp"] > 0:
+                elif pre["osp"] > 0 or (pre["ost"] == 0 and pre["nosk"] > 0):
                     retest.append((e, job, case, robj))
                     continue
+            elif e["mode"] == "block":
+                g = pl["guards"]
+                fired = [k for k in ("pause", "os0", "long") if g.get(k, 0)]
+                if fired and e["job"] not in okg:
+                    continue       # its guarded sibling is rejected as well: reported once, through that pair
+                if fired and not ("long" in fired and "defzippy" not in job["cfg"]):
+                    # the blocking stepper that keeps ticking in the states of the recorded findings agrees
+                    sigs = {"pause": SIG_PAUSE, "os0": SIG_OS0, "long": SIG_ZIPPY}
+                    text = " ".join(sigs[k] + "]" for k in fired) + " blocking stepper vs ticking stepper on a whole " \
+                        "history; the stepper that keeps ticking in those states agrees (decisions changed: %s): " % json.dumps(g) \
+                        + e["err"]
             self.report(e, job, robj, text)
         if retest:
-            # counterfactual for the rapid-event pause: the same pair cut `osp` ticks later (pause ran out, still blocked)
+            # counterfactual: the same pair cut d ticks later, when the pause ran out / the one-shot end was emitted
             rj = []
             for e, job, case, robj in retest:
+                d = max(robj["pre"]["osp"], 1)
                 rj.append({"cfg": job["cfg"], "files": job.get("files", {}),
-                           "cases": [{"hist": robj["prefix"] + [["t", robj["osp"]]], "points": "end", "ks": [robj["K"]],
+                           "cases": [{"hist": robj["prefix"] + [["t", d]], "points": "end", "ks": [robj["K"]],
                                       "conts": [robj["cont"]], "tail": robj["tail"]}]})
             files = run_paired(rj, self.wd, name + ".retest")
             stats, errs2, _, index2 = validate_pairs(files, self.wd, name + ".retest")
@@ -360,11 +385,14 @@ class Pairs:
             have = {p["job"] for p in index2.values()}
             for i, (e, job, case, robj) in enumerate(retest):
                 tag = "%d/0" % i
+                pre = robj["pre"]
+                text = e["err"]
                 if tag in have and tag not in still:
-                    text = SIG_PAUSE + ": oneshot.pause_input_processing_ticks = %d > 0; the same pair taken after the " \
-                        "pause ran out agrees] " % robj["osp"] + e["err"]
-                else:
-                    text = e["err"]
+                    if pre["osp"] > 0:
+                        text = SIG_PAUSE + ": oneshot.pause_input_processing_ticks = %d > 0; the same pair taken %d ticks " \
+                            "later, after the pause ran out, agrees] " % (pre["osp"], pre["osp"]) + e["err"]
+                    else:
+                        text = SIG_OS0 + "; the same pair taken one tick later, after the release was emitted, agrees] " + e["err"]
                 self.report(e, job, robj, text)
 
     def report(self, e, job, robj, text):
@@ -372,10 +400,10 @@ class Pairs:
         is_v = flow.classify(self.res, PID, e["err"], text + " cfg=" + job["cfg"], robj,
                              "%s_%d" % (re.sub(r"\W+", "_", job["label"])[:30], len(self.res.violations)))
         if not is_v:
-            if text.startswith(SIG_PAUSE):
-                self.stats["known_pause"] += 1
-            elif text.startswith(SIG_ZIPPY):
-                self.stats["known_zippy"] += 1
+            for sg, k in ((SIG_PAUSE, "known_pause"), (SIG_OS0, "known_os0"), (SIG_ZIPPY, "known_zippy")):
+                if text.startswith(sg):
+                    self.stats[k] += 1
+                    break
             if len(self.res.known) > n_before or len(self.res.samples) < 6:
                 self.res.samples.append({"known_finding_pair": text[:400], "cfg": job["cfg"], "prefix": robj["prefix"][-12:],
                                          "K": robj["K"], "cont": robj["cont"]})
@@ -421,8 +449,10 @@ def run(tier, seed):
         with sem:
             try:
                 inst = {"name": "c07_" + f["name"], "kbd": f["kbd"], "keys": [cfgdesc.code(k) for k in f["keys"]],
-                        "qmax": f["opt"].get("qmax", 2), "monitor": {"module": "P_C07", "params": {"none": 0}},
-                        "invariants": ["StutterProbe", "C07ProbeX"],
+                        "qmax": f["opt"].get("qmax", 2),
+                        # the one-behaviour monitor of P_C07 is implied by IdleTickIsStutter and would end the
+                        # exploration at the first recorded finding; the invariant itself is the L2 judgement here
+                        "invariants": ["C07Probe", "C07ProbeX"],
                         "extra_defs": PROBE_DEFS + f["opt"].get("extra_defs", ""), "drift_limit": 300}
                 for k in ("caps", "constraint"):
                     if k in f["opt"]:
